@@ -524,7 +524,7 @@ Proof.
   exact (emit_in_rect x0 y0 xr yr a tilt tr pts Ha Htr H).
 Qed.
 
-(* the test of the unrepaired spiral_fermat, `abs(y) <= half_y`, admits points outside (finding C27-a,
+(* the test of the unrepaired spiral_fermat, `abs(y) <= half_y`, lets points outside through (finding C27-a,
    repaired by fixes/C27-a.diff): aspect 1/2, y_range 2, y = 3/2 *)
 Definition accept_unfixed (half_x half_y a tt x y : Q) : bool :=
   if Qeq_bool tt 0 then false else Qle_bool (Qabs (x - (y / a) / tt)) half_x && Qle_bool (Qabs y) half_y.
